@@ -86,6 +86,20 @@ def run(ctx):
             ctx.violation("N1", w, "writer-text", "for a set of two filters (one described) and one extension the renderer writes %r; the loader "
                           "and the parser need %r" % (text, want), node=w.node,
                           witness="reloaded filters are called 'Unnamed rule N', lose their description or their require line")
+        # names and descriptions are the caller's text: runs of blanks, tabs and other space characters are part of it
+        odd_n, odd_d = "a  b\tc\u00a0d", " two  spaces \u3000"
+        try:
+            we2 = writer_eval(ctx, R, name_attr, desc_attr, [{"name": odd_n, "description": odd_d, "content": F1, "enabled": True}], [])
+        except Exception:
+            we2 = None
+        if we2 is not None:
+            want2 = "%s%s\n%s%s\n<f1>" % (NP_, odd_n, DP_, odd_d)
+            if we2[0] == want2:
+                ctx.holds("N1", "renderer: a name / description with runs of blanks, a tab and non-ASCII spaces is written unchanged")
+            else:
+                ctx.violation("N1", w, "writer-text-altered", "for the name %r and the description %r the renderer writes %r (expected %r)"
+                              % (odd_n, odd_d, we2[0], want2), node=w.node,
+                              witness="a filter name with two spaces or a tab comes back with one space after save and load")
         if we0[0] == "<req>\n":
             ctx.holds("N1", "renderer: a set without filters still carries its require line")
         else:
